@@ -63,7 +63,7 @@ def build_tool(pkg):
     if not os.path.exists(lock):
         shutil.copy(os.path.join(REPO, "Cargo.lock"), lock)
     try:
-        p = run(["cargo", "build", "-q", "-p", pkg], cwd=TOOLS, timeout=1500)
+        p = run(["cargo", "build", "-q", "-p", pkg, "--target-dir", TARGET], cwd=TOOLS, timeout=1500)
     except subprocess.TimeoutExpired:
         raise Inconclusive(f"build of {pkg} timed out")
     if p.returncode != 0:
